@@ -1,18 +1,210 @@
-(* C02 — QPS flow rule admits exactly up to the threshold per statistic window.
-   Property theorems only; proofs are in Proofs/FlowProofs.v (work in progress: this first
-   version carries the schedule-quantified k-bound; the window theorems follow). *)
-From SG Require Import Base.Prelude Base.GoInt Model.AdmitConc Proofs.AdmitConcProofs.
+(* C02 — QPS flow rule (Reject + Direct) admits exactly up to the threshold per bucket-aligned
+   statistic window.  Property theorems only; proofs are in Proofs/FlowProofs.v (invariant over the
+   check/record machine of Model/Flow.v, on top of C08's read theorems) and Proofs/FlowFloat.v
+   (the float64 comparison, through Flocq).
 
-(* k requests simultaneously between rule check and statistics: the counter a rule reads never
-   exceeds T + (k-1) * bmax, for every schedule of any number of threads (Release = tokens
-   leaving the window as it slides) *)
+   Conventions.  c : cfg is the statistic configuration (cfg_ok: the global array geometry is a
+   valid leap array and the default metric view tiles it — what config's own validity check
+   enforces); rules are loaded once at t0 > 0 (rules_ok: intervals are uint32); a schedule es is
+   any list of events EChk (prepare + rule check of a request), ERec (its statistic slots), EExit
+   with non-decreasing times (emono) — interleavings of any number of requests between their check
+   and their record included; w_adm w is the list of admitted requests (record time, resource,
+   batch) of the history so far (C02_admitted_is_trace), adm_sum its token sum over a window;
+   for a controller x of resource own, c_target own x is the resource its statistic counts (own,
+   or the referenced resource of an associated rule), [win_lo, win_hi) the window it reads at t
+   (aligned to the buckets of the array it reads: the shared 500 ms buckets for the default and
+   derived views, the rule's own buckets for an independent window), thr_limit = floor(threshold). *)
+From Coq Require Import Floats Reals.
+From Flocq Require Import Core.Raux.
+From SG Require Import Base.Prelude Base.GoInt Base.GoFloat Model.LeapArray Model.StatNode Model.Flow
+  Model.AdmitConc Proofs.LeapArrayProofs Proofs.StatProofs Proofs.AdmitConcProofs
+  Proofs.FlowFloat Proofs.FlowProofs.
+#[local] Open Scope Z_scope.
+
+(* what a rule compares with its threshold — in every reachable state, at every instant at or after
+   the last event — is the admitted tokens of its target resource in its aligned window *)
+Theorem C02_window_read : forall c t0 rules es own x t,
+  cfg_ok c -> 0 < t0 -> rules_ok rules -> emono t0 es -> elast t0 es <= t < two62' ->
+  let w := fst (erun (load c t0 rules) es) in
+  In x (ctrls_of w own) ->
+  ctrl_sum w x t = Some (adm_sum (w_adm w) (c_target own x) (win_lo c x t) (win_hi c x t)).
+Proof.
+  intros c t0 rules es own x t Hc Ht0 Hr Hm Ht w Hin.
+  pose proof (reachable_inv c t0 rules es Hc Ht0 Hr Hm) as HI.
+  rewrite <- (load_cfg c t0 rules), <- (erun_cfg es (load c t0 rules)).
+  exact (ctrl_sum_eq w (elast t0 es) own x t HI Ht Hin).
+Qed.
+
+(* float64(sum) + float64(batch) > threshold is the exact comparison below 2^53 *)
+Theorem C02_float_exact : forall thr s b,
+  thr_ok thr = true -> 0 <= s -> 0 <= b -> s + b < 2 ^ 53 ->
+  rule_blocks thr s b = (thr_limit thr <? s + b).
+Proof. exact rule_blocks_exact. Qed.
+
+Theorem C02_float_exact_real : forall thr s b,
+  thr_ok thr = true -> 0 <= s -> 0 <= b -> s + b < 2 ^ 53 ->
+  (rule_blocks thr s b = false <-> (IZR (s + b) <= FR thr)%R).
+Proof. exact rule_blocks_iff_real. Qed.
+
+Theorem C02_thr_limit_is_floor : forall thr, thr_ok thr = true -> thr_limit thr = Zfloor (FR thr).
+Proof. exact thr_limit_floor. Qed.
+
+(* a request of batch b is admitted iff, for every rule of the resource, the tokens already
+   admitted in the rule's current aligned window (own or referenced resource) plus b do not
+   exceed the threshold *)
+Theorem C02_decision : forall c t0 rules es tid t res b,
+  cfg_ok c -> 0 < t0 -> rules_ok rules -> emono t0 es -> Forall ev_nonneg es ->
+  elast t0 es <= t < two62' -> 0 <= b ->
+  let w := fst (erun (load c t0 rules) es) in
+  Forall (fun x => thr_ok (r_thr (c_rule x)) = true) (ctrls_of w res) ->
+  Forall (fun x => win_adm w res x t + b < 2 ^ 53) (ctrls_of w res) ->
+  (snd (chk w tid t res b) = OPass <->
+   Forall (fun x => win_adm w res x t + b <= thr_limit (r_thr (c_rule x))) (ctrls_of w res)).
+Proof.
+  intros c t0 rules es tid t res b Hc Ht0 Hr Hm Hnn Ht Hb w.
+  exact (check_decision w (elast t0 es) tid t res b (reachable_inv c t0 rules es Hc Ht0 Hr Hm)
+           (NonNeg_erun es _ (NonNeg_load c t0 rules) Hnn) Ht Hb).
+Qed.
+
+(* no spurious rejection: a rejection names the first rule (in loading order) whose window is
+   exhausted and reports the admitted tokens in that window *)
+Theorem C02_no_spurious_block : forall c t0 rules es tid t res b i s,
+  cfg_ok c -> 0 < t0 -> rules_ok rules -> emono t0 es -> Forall ev_nonneg es ->
+  elast t0 es <= t < two62' -> 0 <= b ->
+  let w := fst (erun (load c t0 rules) es) in
+  Forall (fun x => thr_ok (r_thr (c_rule x)) = true) (ctrls_of w res) ->
+  Forall (fun x => win_adm w res x t + b < 2 ^ 53) (ctrls_of w res) ->
+  snd (chk w tid t res b) = OBlock i s ->
+  exists pre x post, ctrls_of w res = pre ++ x :: post /\ c_idx x = i /\ s = win_adm w res x t /\
+    Forall (fun y => win_adm w res y t + b <= thr_limit (r_thr (c_rule y))) pre /\
+    thr_limit (r_thr (c_rule x)) < win_adm w res x t + b.
+Proof.
+  intros c t0 rules es tid t res b i s Hc Ht0 Hr Hm Hnn Ht Hb w.
+  exact (check_block w (elast t0 es) tid t res b i s (reachable_inv c t0 rules es Hc Ht0 Hr Hm)
+           (NonNeg_erun es _ (NonNeg_load c t0 rules) Hnn) Ht Hb).
+Qed.
+
+(* rejected requests consume nothing: after the statistic phase of a blocked request the admitted
+   list is unchanged, and every later read of every rule is what it would have been *)
+Theorem C02_rejected_consume_nothing : forall c t0 rules es t res b pd t' own x,
+  cfg_ok c -> 0 < t0 -> rules_ok rules -> emono t0 es -> elast t0 es <= t -> t <= t' < two62' ->
+  let w := fst (erun (load c t0 rules) es) in
+  Forall (fun q => alookup (p_res (snd q)) (w_nodes w) <> None) pd ->
+  let w' := rec_block w t res b pd in
+  w_adm w' = w_adm w /\
+  (In x (ctrls_of w' own) ->
+   ctrl_sum w' x t' = Some (adm_sum (w_adm w) (c_target own x) (win_lo (w_cfg w) x t') (win_hi (w_cfg w) x t'))).
+Proof.
+  intros c t0 rules es t res b pd t' own x Hc Ht0 Hr Hm Ht Ht' w.
+  exact (blocked_consumes_nothing w (elast t0 es) t res b pd t' own x (reachable_inv c t0 rules es Hc Ht0 Hr Hm) Ht Ht').
+Qed.
+
+(* the admitted list is the trace: exactly the Entry operations that were not blocked *)
+Theorem C02_admitted_is_trace : forall c t0 rules ops,
+  w_adm (fst (run (load c t0 rules) ops)) = trace_adm ops (snd (run (load c t0 rules) ops)) [].
+Proof.
+  intros c t0 rules ops. rewrite (run_adm ops (load c t0 rules) (load_pend c t0 rules)), load_adm. reflexivity.
+Qed.
+
+(* a sequential history is a schedule of the check/record machine *)
+Theorem C02_sequential_is_schedule : forall w ops, fst (run w ops) = fst (erun w (seq_events ops)).
+Proof. intros w ops. exact (run_erun ops w). Qed.
+
+(* no excess: for every sequential history and every rule on its own resource reading windows of
+   length I aligned to buckets of length bl, every aligned window holds at most floor(T) admitted
+   tokens *)
+Theorem C02_no_excess : forall c t0 rules ops res r bl I,
+  cfg_ok c -> 0 < t0 -> rules_ok rules ->
+  omono t0 ops -> olast t0 ops < two62' -> Forall op_nonneg ops -> ops_total ops < 2 ^ 53 ->
+  0 < bl -> I mod bl = 0 -> r_assoc r = false -> thr_ok (r_thr r) = true ->
+  has_rule res bl I r (load c t0 rules) ->
+  forall s, s mod bl = 0 ->
+  adm_sum (w_adm (fst (run (load c t0 rules) ops))) res s (s + I) <= thr_limit (r_thr r).
+Proof. exact no_excess. Qed.
+
+(* k requests simultaneously between rule check and statistics: the counter a rule reads (the
+   current window sum; Release = tokens leaving the window as it slides) never exceeds
+   floor(T) + (k-1) * bmax, for every schedule of any number of threads *)
 Theorem C02_k_bound : forall L k bmax sched,
   1 <= k -> 0 <= L -> 0 <= bmax ->
-  Forall ev_ok sched ->
+  Forall AdmitConcProofs.ev_ok sched ->
   Forall (pend_ok k bmax) (ctrace L (fun b => Z.min b bmax) sched cinit) ->
   Forall (fun s => count s <= L + (k - 1) * bmax) (ctrace L (fun b => Z.min b bmax) sched cinit).
 Proof.
   intros L k bmax sched Hk HL Hb. apply k_bound; auto. intros b Hb0. lia.
 Qed.
 
+(* ---- non-vacuity ---- *)
+
+Definition ex_rules : list (Z * list rule) :=
+  [(0, [{| r_thr := 2.5; r_itv := 0; r_assoc := false; r_ref := 0 |};
+        {| r_thr := 3; r_itv := 750; r_assoc := false; r_ref := 0 |}]);
+   (1, [{| r_thr := 1; r_itv := 2000; r_assoc := true; r_ref := 0 |}])].
+
+Definition ex_ops : list op :=
+  [Enter 1700000000100 0 1; Enter 1700000000100 0 1; Enter 1700000000100 0 1;
+   Enter 1700000000499 1 1; Enter 1700000000600 1 0; Exit 1700000000700 0 1 1700000000100;
+   Enter 1700000000999 0 1; Enter 1700000001000 0 2; Enter 1700000001499 0 1; Enter 1700000001500 0 2;
+   Enter 1700000013000 1 1].
+
+(* the hypotheses of the theorems hold of a concrete configuration, and the history is non-trivial:
+   two rules on resource 0 (default view, independent 750 ms window), an associated rule on
+   resource 1; admissions and rejections on both resources (the associated rule rejects on resource 1
+   because of resource 0's tokens), bucket and array-cycle boundaries crossed *)
+Transparent two32.
+Example C02_nonvacuous_cfg : cfg_ok default_cfg /\ rules_ok ex_rules.
+Proof.
+  split.
+  - unfold cfg_ok, geom_ok. vm_compute. intuition (try discriminate; try reflexivity).
+  - unfold rules_ok, ex_rules. repeat constructor; cbn; unfold two32; lia.
+Qed.
+Example C02_nonvacuous_history :
+  omono 1700000000000 ex_ops /\ emono 1700000000000 (seq_events ex_ops) /\
+  Forall ev_nonneg (seq_events ex_ops) /\ Forall op_nonneg ex_ops /\ ops_total ex_ops < 2 ^ 53.
+Proof.
+  split; [cbn [omono ex_ops op_time]; lia|].
+  split; [cbn [emono seq_events flat_map ex_ops op_events app ev_time]; lia|].
+  split; [cbn [seq_events flat_map ex_ops op_events app]; repeat (apply Forall_cons; [cbn [ev_nonneg]; try lia; trivial|]); apply Forall_nil|].
+  split; [unfold ex_ops; repeat (apply Forall_cons; [cbn [op_nonneg]; try lia; trivial|]); apply Forall_nil|].
+  cbn [ops_total ex_ops]. lia.
+Qed.
+Example C02_nonvacuous_outcomes :
+  snd (run (load default_cfg 1700000000000 ex_rules) ex_ops)
+  = [OPass; OPass; OBlock 0 2; OBlock 0 2; OBlock 0 2; ONone; OBlock 0 2; OPass; OBlock 0 2; OBlock 0 2; OPass].
+Proof. vm_compute. reflexivity. Qed.
+Example C02_nonvacuous_thresholds :
+  forallb (fun x => thr_ok (r_thr (c_rule x))) (ctrls_of (load default_cfg 1700000000000 ex_rules) 0) = true /\
+  thr_limit 2.5 = 2 /\ thr_ok 2.5 = true /\ rule_blocks 2.5 2 1 = true /\ rule_blocks 2.5 1 1 = false.
+Proof. vm_compute. auto. Qed.
+Example C02_nonvacuous_rule_default :
+  has_rule 0 500 1000 {| r_thr := 2.5; r_itv := 0; r_assoc := false; r_ref := 0 |} (load default_cfg 1700000000000 ex_rules).
+Proof.
+  unfold has_rule. set (l := ctrls_of (load default_cfg 1700000000000 ex_rules) 0). vm_compute in l. subst l.
+  eexists. split; [left; reflexivity|]. vm_compute. auto.
+Qed.
+Example C02_nonvacuous_rule_independent :
+  has_rule 0 750 750 {| r_thr := 3; r_itv := 750; r_assoc := false; r_ref := 0 |} (load default_cfg 1700000000000 ex_rules).
+Proof.
+  unfold has_rule. set (l := ctrls_of (load default_cfg 1700000000000 ex_rules) 0). vm_compute in l. subst l.
+  eexists. split; [right; left; reflexivity|]. vm_compute. auto.
+Qed.
+
+(* the k-bound's hypotheses: two requests inside the path at once, threshold 2 *)
+Example C02_k_bound_nonvacuous :
+  let sched := [Check 1 1; Check 2 1; Check 3 2; Record 1; Record 2; Record 3; Check 4 1] in
+  forallb (fun s => (Z.of_nat (length (pending s)) <=? 3) && forallb (fun p => (0 <=? snd p) && (snd p <=? 2)) (pending s))
+          (ctrace 2 (fun b => Z.min b 2) sched cinit) = true /\
+  count (cexec 2 (fun b => Z.min b 2) sched cinit) = 4.
+Proof. vm_compute. auto. Qed.
+
+Print Assumptions C02_window_read.
+Print Assumptions C02_float_exact.
+Print Assumptions C02_float_exact_real.
+Print Assumptions C02_thr_limit_is_floor.
+Print Assumptions C02_decision.
+Print Assumptions C02_no_spurious_block.
+Print Assumptions C02_rejected_consume_nothing.
+Print Assumptions C02_admitted_is_trace.
+Print Assumptions C02_sequential_is_schedule.
+Print Assumptions C02_no_excess.
 Print Assumptions C02_k_bound.
